@@ -480,7 +480,7 @@ def cq_obs(e):
 
 
 def render(c, o):
-    if c["op"] in ("loaded", "first"):
+    if c["op"] in ("loaded", "first", "cpu"):
         return render_sched(c, o)
     if c["op"] == "bylib":
         groups = [[c["gpus"][i] for i in ids] for ids in (o["groups"] or [])]
@@ -499,7 +499,7 @@ def render(c, o):
 
 
 def model_term(c, o):
-    if c["op"] in ("loaded", "first"):
+    if c["op"] in ("loaded", "first", "cpu"):
         return sched_model_term(c, o)
     if c["op"] == "bylib":
         return "by_library %s" % cq_gpus(c["gpus"])
@@ -587,6 +587,61 @@ def gen_sched_cases(rng, cfg, ins, k):
     return out
 
 
+def gen_cpu_cases(rng, cfg, pb, k):
+    """processPending's CPU branch: one "cpu" inventory entry whose free system memory is aimed at the requirement of the
+    configuration that will be loaded (NumCtx x parallel) and at the requirement at parallel 1, 0-2 other runners loaded,
+    OLLAMA_NUM_PARALLEL unset / 1 / 2 / 4, embedding models (parallel forced to 1)"""
+    out = []
+    tot = {int(p): I(v) for p, v in pb["cpu_totals"].items()}
+    for _ in range(k):
+        emb = rng.random() < 0.15
+        np_env = rng.choice([0, 0, 0, 1, 2, 4])
+        p_eff = 1 if emb else (np_env if np_env > 0 else 4)
+        T, T1 = tot.get(p_eff, tot[1]), tot[1]
+        free = max(0, rng.choice([T - 1, T, T, T + 1, T1, T1 + 1, (T1 + T) // 2, (T1 + T) // 2, T1 + (T - T1) // 3, 0, 10 * T + 5, rng.randint(0, 2 * T + 1)]))
+        model = cfg["model"]
+        if emb:
+            model = dict(model, kv_u32=dict(model["kv_u32"], pooling_type="1"))
+        nload = rng.choice([0, 1, 1, 1, 1, 2])
+        out.append({"op": "cpu", "model": model, "projectors": cfg["projectors"], "num_gpu": rng.choice([0, 0, -1, cfg["num_gpu"]]),
+                    "num_batch": cfg["num_batch"], "num_ctx": cfg["cpu_ctx"], "num_parallel": np_env, "emb": emb, "overhead": str(rng.choice([0, 0, 1000])),
+                    "spread": False, "gpus": [{"lib": "cpu", "variant": "", "id": "0", "free": str(free), "total": str(free + rng.choice([0, 1, 10 ** 9])), "min": "0"}],
+                    "runners": [{"loading": False, "gpus": ["0"], "llama": True, "vram": {}} for _ in range(nload)],
+                    "klass": "sched/cpu/%s/%s" % ("first" if nload == 0 else "loaded", "emb" if emb else "np%d" % np_env)})
+    return out
+
+
+def cpu_monitor(c, o):
+    bad = []
+    if o.get("action") not in ("load", "evict"):
+        return [("panic", "the scheduler's CPU branch neither loaded nor evicted: %s" % json.dumps({k: v for k, v in o.items() if k != "in"})[:300])]
+    if o["action"] == "load":
+        orig = c["num_ctx"]
+        if o["num_ctx"] != orig * max(o["p"], 1):
+            bad.append(("cpu_config_mismatch", "loadFn gets NumCtx=%d with numParallel=%d for a request with NumCtx=%d" % (o["num_ctx"], o["p"], orig)))
+        est = o.get("est") or {}
+        if "panic" in est:
+            bad.append(("panic", "estimator panicked: %s" % est["panic"]))
+        elif c["runners"] and I(est["total"]) > I(c["gpus"][0]["free"]):
+            bad.append(("cpu_fit_bound", "%d other runner(s) stay loaded and the scheduler loads NumCtx=%d x parallel=%d, which needs %s bytes, "
+                        "but the reported free system memory is %s" % (len(c["runners"]), o["num_ctx"], o["p"], est["total"], c["gpus"][0]["free"])))
+    return bad
+
+
+def render_cpu(c, o):
+    if o.get("action") not in ("load", "evict"):
+        return "false"
+    act, est = "None", "None"
+    if o["action"] == "load":
+        orig = c["num_ctx"]
+        mult = o["num_ctx"] // orig if orig and o["num_ctx"] % orig == 0 else -1
+        act = "(Some (%s, %s))" % (cq_Z(o["p"]), cq_Z(mult))
+        if isinstance(o.get("est"), dict) and "panic" not in o["est"]:
+            est = "(Some %s)" % cq_obs(o["est"])
+    a = sched_args(c, o).split(" ", 2)     # spread, np, rest
+    return "chk_sched_cpu %d%%nat %s %s %s %s %s %s" % (len(c["runners"]), cq_xgpu(c["gpus"][0]), a[1], cq_bool(bool(c.get("emb"))), a[2], act, est)
+
+
 def sched_inp(c, o):
     """the model-file inputs that belong to the parallel setting the scheduler ended with"""
     p = o.get("p", 1)
@@ -594,6 +649,12 @@ def sched_inp(c, o):
 
 
 def sched_monitor(c, o):
+    if c["op"] == "cpu":
+        return cpu_monitor(c, o)
+    return sched_monitor_gpu(c, o)
+
+
+def sched_monitor_gpu(c, o):
     """the property end to end: nothing the scheduler hands to the estimator has more free memory than was reported, and the
     plan for the chosen GPUs stays within the REPORTED free memory less the overhead"""
     bad = []
@@ -660,6 +721,8 @@ def sched_args(c, o):
 
 
 def render_sched(c, o):
+    if c["op"] == "cpu":
+        return render_cpu(c, o)
     est = "None"
     if isinstance(o.get("est"), dict):
         if "panic" in o["est"]:
@@ -676,6 +739,8 @@ def sched_model_term(c, o):
     a = sched_args(c, o).split(" ", 2)
     mp = "(mp_of %s)" % sched_args(c, o).split(" ", 2)[2].rsplit(" (mkopts", 1)[0]
     opts = cq_opts(c, o["in"]["1"])
+    if c["op"] == "cpu":
+        return "sched_cpu %d%%nat %s %s %s %s %s" % (len(c["runners"]), cq_xgpu(c["gpus"][0]), a[1], cq_bool(bool(c.get("emb"))), mp, opts)
     if c["op"] == "loaded":
         rs = cq_list([cq_runner(r) for r in c["runners"]], "runner")
         return "sched_loaded %s %s %s %s %s %s" % (rs, cq_xgpus(c["gpus"]), a[0], a[1], mp, opts)
@@ -724,7 +789,9 @@ def run_sched(ctx, only_cases=None):
     else:
         ncfg, k = (45, 14) if ctx.quick() else (400, 30)
         cfgs = [gen_config(rng) for _ in range(ncfg)]
-        probes = [dict({k2: cfg[k2] for k2 in ("model", "projectors", "num_gpu", "num_batch")}, op="probe", num_ctx=64, num_parallel=2, overhead="0",
+        for cfg in cfgs:
+            cfg["cpu_ctx"] = rng.choice([4, 64, 512, 2048])
+        probes = [dict({k2: cfg[k2] for k2 in ("model", "projectors", "num_gpu", "num_batch")}, op="probe", num_ctx=cfg["cpu_ctx"], num_parallel=2, overhead="0",
                        spread=False, gpus=[], runners=[]) for cfg in cfgs]
         pobs, err = ctx.run_jsonl(binp, probes, args=SCHED_ARGS, env=sched_env())
         if pobs is None or len(pobs) != len(probes) or any("in" not in p for p in pobs):
@@ -732,9 +799,10 @@ def run_sched(ctx, only_cases=None):
             ctx.obligation("harness c16sched answered every probe", False, detail)
             ctx.proof_failures.append({"obligation": "correspondence: harness c16sched could not load the generated models", "detail": detail})
             return
-        cases = load_corpus(("loaded", "first"))
+        cases = load_corpus(("loaded", "first", "cpu"))
         for cfg, pb in zip(cfgs, pobs):
             cases += gen_sched_cases(rng, cfg, pb["in"], k)
+            cases += gen_cpu_cases(rng, cfg, pb, 5 if ctx.quick() else 12)
     obs, err = ctx.run_jsonl(binp, [strip(c) for c in cases], args=SCHED_ARGS, timeout=1200, env=sched_env())
     if obs is None or len(obs) != len(cases) or any("harness_error" in o or "in" not in o for o in obs):
         detail = err + " " + json.dumps([o for o in (obs or []) if "in" not in o][:2])[:1500]
@@ -867,7 +935,7 @@ def run(ctx, only_cases=None, sched_cases=None):
                     expect_theorems=["C16_per_gpu_bound", "C16_per_gpu_bound_refuted", "C16_layers_le_model_and_limit", "C16_split_sums",
                                      "C16_total_ge_vram", "C16_total_ge_vram_refuted", "C16_fit_sound", "C16_unadmitted_gpu_gets_nothing",
                                      "C16_by_library_partition", "C16_no_wrap_below_2_64", "C16_bytes_below_2_64", "C16_sched_free_never_raised", "C16_sched_free_accounts_for_resident",
-                                     "C16_sched_pick_full_sound", "C16_sched_per_gpu_bound_reported", "C16_sched_first_per_gpu_bound"])
+                                     "C16_sched_pick_full_sound", "C16_sched_per_gpu_bound_reported", "C16_sched_first_per_gpu_bound", "C16_sched_cpu_load_fits"])
     if not ctx.quick():
         ctx.coqchk(["V.Mem.Properties_C16", "V.Mem.Corr"])
     binp = ctx.go_build("c16")
@@ -1038,7 +1106,7 @@ def replay(ctx, path):
         run(ctx)
     else:
         case["klass"] = "replay"
-        if case.get("op") in ("loaded", "first"):
+        if case.get("op") in ("loaded", "first", "cpu"):
             run(ctx, only_cases=[], sched_cases=[case])
         else:
             run(ctx, only_cases=[case])
